@@ -9,7 +9,7 @@ TSanity == /\ IsEvent("Sanity") /\ pc = "recv"
                  IF scn.validator = "schema" THEN E.cls[j] = Conf(j)
                  ELSE (Conf(j) = "yes" => E.cls[j] = "yes") /\ (Conf(j) = "no" => E.cls[j] = "no")
            /\ UNCHANGED vars
-TExec  == IsEvent("Exec") /\ Exec([ran |-> TRUE, p1 |-> E.p1, p2 |-> E.p2, extra |-> E.extra])
+TExec  == IsEvent("Exec") /\ Exec([ran |-> TRUE, p1 |-> E.p1, p2 |-> E.p2, p3 |-> E.p3, extra |-> E.extra])
 TReply == IsEvent("Reply") /\ \/ (ReplyResult /\ E.r = "result")
                               \/ (ReplyInvalid /\ E.r = "c_m32602" /\ E.data_encodable = TRUE)
 TraceNext == TSanity \/ TExec \/ TReply
